@@ -116,6 +116,17 @@ func Exec(s *Stream, seed uint64, n int, shards int) *Result {
 	res := &Result{Stream: s.Name, Seed: seed, Rule: s.Rule, Distribution: map[string]int{}}
 	var mu sync.Mutex
 	seen := map[[20]byte]bool{}
+	// keep at most 5 violations per witness class (and 2000 in total), so that a frequent class — for instance a listed
+	// known finding — cannot crowd out a different one
+	perWitness := map[string]int{}
+	keep := func(w string) bool {
+		if perWitness[w] >= 5 || len(res.Violations) >= 2000 {
+			return false
+		}
+		perWitness[w]++
+		return true
+	}
+
 	record := func(c Case, modelReply string, compared bool) {
 		mu.Lock()
 		defer mu.Unlock()
@@ -150,7 +161,7 @@ func Exec(s *Stream, seed uint64, n int, shards int) *Result {
 						w = s.SpecWitness(c, modelReply)
 					}
 					res.NViolations++
-					if len(res.Violations) < 50 {
+					if keep(w) {
 						res.Violations = append(res.Violations, Violation{Property: s.SpecProperty, What: "the implementation's answer differs from the reference semantics (" + s.Name + ")",
 							Witness: w, Req: c.Req, Detail: "impl: " + c.Impl + "\nspec: " + modelReply})
 					}
@@ -159,7 +170,7 @@ func Exec(s *Stream, seed uint64, n int, shards int) *Result {
 		}
 		for _, v := range c.Viols {
 			res.NViolations++
-			if len(res.Violations) < 50 {
+			if keep(v.Property + "\x00" + v.Witness) {
 				res.Violations = append(res.Violations, v)
 			}
 		}
